@@ -214,7 +214,7 @@ Fixpoint qlist_rel (tol : Q) (a b : list Q) : bool :=
      unweighted_likelihood_ (l.430-462):  dx = m - x ;  q = np.sum(np.dot(dx, b) * dx, 1)
      unweighted_likelihood  (l.464-498):  dx = xt - m ; sqx = dx * np.dot(b, dx) ; q = sum_d sqx[d]
      diag:  q = np.dot((m - x) ** 2, b)   resp.   q = np.dot(b, (m - xt) ** 2)            *)
-From NV.Lib Require Import RingMat.
+From NV.Lib Require Import RingMat Harness.
 From Coq Require Import Qcanon.
 Close Scope Qc_scope.
 Open Scope Q_scope.
@@ -366,3 +366,45 @@ Definition gr_scale (KF : Q) (xs : list Q) : Q := 1 / gr_var xs * KF.
    k*dim means, k*dim(dim+1)/2 (full, symmetric) resp. k*dim (diag) precision entries *)
 Definition free_params_full (k dim : Q) : Q := (k - 1) + k * dim + k * (dim * (dim + 1) / 2).
 Definition free_params_diag (k dim : Q) : Q := (k - 1) + k * dim + k * dim.
+
+(* ------------------------------------------------------------------ Part D *)
+(* D.1 BrainT1Segmentation.convert (brain_segmentation.py l.109-112), one voxel:
+     self.ppm = np.dot(self.ppm, self.mixmat)          row (K classes) times mixmat (K x T)
+     self.label = map_from_ppm(self.ppm, self.mask)    argmax of the MIXED row, + 1        *)
+Fixpoint mix_row (T : nat) (row : list Q) (M : list (list Q)) : list Q :=
+  match row, M with
+  | r :: row', m :: M' => qadd2 (map (fun v => r * v) m) (mix_row T row' M')
+  | _, _ => repeat 0 T
+  end.
+Definition convert_voxel (T : nat) (row : list Q) (M : list (list Q)) : list Q * nat :=
+  (mix_row T row M, map_from_ppm_row (mix_row T row M)).
+
+(* D.2 bgmm.dkl_gaussian (l.243-272) over a commutative ring with the transcendental / LAPACK
+   values threaded in: LOGR = log(d1/d2) (d_i = det P_i), S1 = inv(P1), half = 1/2:
+     dkl = log(d1/d2) + trace(P2 . inv(P1)) - dim ; dkl += (m1-m2)' P2 (m1-m2) ; dkl /= 2 *)
+Section Dkl.
+  Variable R : Type.
+  Variables (r0 : R) (radd rmul rsub : R -> R -> R).
+  (* trace(A . B) = sum_i (row i of A) . (column i of B) *)
+  Fixpoint trace_prod_from (i : nat) (A B : list (list R)) : R :=
+    match A with
+    | [] => r0
+    | a :: A' => radd (dot r0 radd rmul a (col r0 i B)) (trace_prod_from (S i) A' B)
+    end.
+  Definition dkl_gaussian_model (half LOGR dimR : R) (dim : nat) (m1 : list R) (S1 : list (list R))
+             (m2 : list R) (P2 : list (list R)) : R :=
+    rmul half (radd (rsub (radd LOGR (trace_prod_from 0 P2 S1)) dimR)
+                    (quad_rowwise R r0 radd rmul rsub dim m1 m2 P2)).
+  (* the textbook form: trace term, Mahalanobis term (m2-m1)' P2 (m2-m1) weighted by the
+     precision of the SECOND density, log-determinant term *)
+  Definition dkl_gaussian_textbook (half LOGR dimR : R) (m1 : list R) (S1 : list (list R))
+             (m2 : list R) (P2 : list (list R)) : R :=
+    rmul half (radd (radd (rsub (trace_prod_from 0 P2 S1) dimR)
+                          (dot r0 radd rmul (vsub R rsub m2 m1) (mv r0 radd rmul P2 (vsub R rsub m2 m1))))
+                    LOGR).
+End Dkl.
+Definition dkl_gaussian_Qc (LOGR : Qc) (dim : nat) m1 S1 m2 P2 : Qc :=
+  dkl_gaussian_model Qc qc0 Qcplus Qcmult Qcminus (Q2Qc (1 # 2)) LOGR (Q2Qc (inject_Z (Z.of_nat dim))) dim m1 S1 m2 P2.
+(* S1 is the inverse of P1: P1 . S1 = I, checked by the harness on the oracle value *)
+Definition is_inverse_Qc (n : nat) (P S : list (list Qc)) : bool :=
+  list_eqb (list_eqb Qc_eq_bool) (mm qc0 Qcplus Qcmult n P S) (mid qc0 (Q2Qc 1) n).
